@@ -175,7 +175,12 @@ pub struct Interp<'a> {
     types: BTreeMap<(String, String), VariableType>,
     locals: BTreeMap<String, Val>,
     local_stamp: BTreeMap<String, usize>,
-    signals: BTreeMap<String, BigInt>,
+    pub signals: BTreeMap<String, BigInt>,
+    /// final values of the signals from an earlier execution with the same choices: a
+    /// signal has one value, so a read that comes before the assignment sees it too
+    pub pre_signals: BTreeMap<String, BigInt>,
+    /// whether constant claims are judged in this execution
+    pub judge: bool,
     stamp: usize,
     choices: Rng,
     call_counter: usize,
@@ -221,6 +226,8 @@ impl<'a> Interp<'a> {
             locals: BTreeMap::new(),
             local_stamp: BTreeMap::new(),
             signals: BTreeMap::new(),
+            pre_signals: BTreeMap::new(),
+            judge: true,
             stamp: 0,
             choices: Rng::new(choice_seed),
             call_counter: 0,
@@ -249,7 +256,7 @@ impl<'a> Interp<'a> {
 
     fn record(&mut self, e: &Expression, v: &Option<BigInt>) {
         self.trace.node_values.entry(node_id(e)).or_default().push(v.clone());
-        if self.mode != Mode::Values || self.trace.violation.is_some() {
+        if self.mode != Mode::Values || !self.judge || self.trace.violation.is_some() {
             return;
         }
         // check the constant the analysis attached to this node
@@ -306,13 +313,24 @@ impl<'a> Interp<'a> {
         Some(key)
     }
 
-    fn read_signal(&mut self, key: &str) -> BigInt {
+    /// `assignable`: an output or intermediate signal of this template. In value mode
+    /// such a signal has the value assigned to it on this path; if it is never assigned
+    /// the read is undefined (None) and nothing computed from it is judged.
+    fn read_signal(&mut self, key: &str, assignable: bool) -> Option<BigInt> {
         if self.mode == Mode::Values {
-            if let Some(v) = self.signals.get(key) {
-                return v.clone();
+            if let Some(v) = self.signals.get(key).or_else(|| self.pre_signals.get(key)) {
+                return Some(v.clone());
+            }
+            if assignable {
+                return None;
             }
         }
-        self.indeterminate(key, true)
+        Some(self.indeterminate(key, true))
+    }
+
+    fn assignable(&self, n: &VariableName) -> bool {
+        use program_structure::ir::SignalType;
+        matches!(self.var_type(n), Some(VariableType::Signal(SignalType::Output | SignalType::Intermediate, _)))
     }
 
     /// None = unknown / undefined: nothing can be said about the node in this sample.
@@ -324,7 +342,8 @@ impl<'a> Interp<'a> {
                 Some(VariableType::Local) => self.locals.get(&vname(name)).cloned(),
                 Some(_) => {
                     let key = self.access_key(name, &[])?;
-                    Some(Val::F(self.read_signal(&key)))
+                    let asg = self.assignable(name);
+                    self.read_signal(&key, asg).map(Val::F)
                 }
                 None => None,
             },
@@ -347,7 +366,8 @@ impl<'a> Interp<'a> {
                 }
                 Some(_) => {
                     let key = self.access_key(var, access)?;
-                    Some(Val::F(self.read_signal(&key)))
+                    let asg = self.assignable(var);
+                    self.read_signal(&key, asg).map(Val::F)
                 }
                 None => None,
             },
@@ -512,7 +532,7 @@ impl<'a> Interp<'a> {
                         match self.var_type(var) {
                             Some(VariableType::Local) => {
                                 // the statement itself may carry a claimed constant
-                                if self.mode == Mode::Values {
+                                if self.mode == Mode::Values && self.judge {
                                     if let (Some(claim), Some(Val::F(actual))) = (meta.value_knowledge().get_reduces_to(), &v) {
                                         self.trace.claims_checked += 1;
                                         let ok = match claim {
